@@ -110,6 +110,7 @@ class Bench:
             return "setup_not_acked:%s" % r.get("kind"), []
         await host.idle(ctx, 3)
         data = []
+        await self._poll(ctx, host, addr)
         if req["dirin"] and req["length"] > 0:
             naks = 0
             while True:
@@ -127,7 +128,9 @@ class Bench:
                 data += r["payload"]
                 if len(r["payload"]) < 64 or len(data) >= req["length"]:
                     break
+                await self._poll(ctx, host, addr)
             await host.idle(ctx, 3)
+            await self._poll(ctx, host, addr)
             r = await host.out_transaction(ctx, addr, 0, "DATA1", [])
             if r.get("kind") == "hs" and r["pid"] == "STALL":
                 return "stall", data
@@ -159,6 +162,7 @@ class Bench:
                     return "data_out_bad_response:%s" % r.get("kind"), data
                 break
             await host.idle(ctx, 3)
+            await self._poll(ctx, host, addr)
         naks = 0
         while True:
             r = await host.in_transaction(ctx, addr, 0, ack=True)
@@ -173,6 +177,30 @@ class Bench:
             if r.get("kind") == "data" and r.get("crc_ok") and r["payload"] == [] and r["pid"] == "DATA1":
                 return ("ok" if not ignored else "data_out_ignored_but_status_ok"), data
             return "status_in_bad_response:%s" % r.get("kind"), data
+
+    async def _poll(self, ctx, host, addr):
+        """Traffic a real CDC-ACM host interleaves with a control transfer (between its transactions): IN polls
+        of the interrupt (EP3) and bulk (EP4) endpoints, and tokens for other devices. The bulk IN polls are
+        ordinary "in" events of the trace (the specification's Ctl step is independent of the data state, so
+        recording them before the enclosing "ctl" record is exact); the others must leave no trace at all."""
+        mode = self.scenario.get("ctl_polls")
+        if not mode:
+            return
+        kinds = {"ep3": ["ep3"], "ep4": ["ep4"], "foreign": ["foreign"]}.get(mode) or \
+            [self.rng2.choice(["ep3", "ep4", "foreign", "none"]) for _ in range(self.rng2.randint(1, 2))]
+        for kd in kinds:
+            if kd == "ep3":
+                r = await host.in_transaction(ctx, addr, 3, ack=True)
+                self.ep3_resp.append(r.get("pid") if r.get("kind") == "hs" else r.get("kind"))
+            elif kd == "ep4":
+                rec, _ = await self.bulk_in(ctx, host, addr, True)
+                self._flush(rec)
+            elif kd == "foreign":
+                other = (addr + self.rng2.randint(1, 126)) % 128
+                r = await host.in_transaction(ctx, other, self.rng2.choice([0, 3, 4]), ack=False)
+                if r.get("kind") != "none":
+                    self.ep3_resp.append("answered_foreign_token")
+            await host.idle(ctx, self.rng2.randint(2, 5))
 
     async def bulk_out(self, ctx, host, addr, tog, payload, crc_ok=True):
         r = await host.out_transaction(ctx, addr, 4, "DATA1" if tog else "DATA0", payload, corrupt_crc=not crc_ok)
@@ -208,6 +236,7 @@ class Bench:
         self.tx_force = False
         self.tx_queue, self.tx_acc, self.rx_acc, self.trace = [], [], [], []
         self.timed, self.tx_force_n, self.rx_timed = [], 0, []
+        self.ep3_resp = []
         self.held, self.exp_tog = 0, 0      # harness-side estimate, used only to keep clean stimuli inside the buffer
         ctx.set(self.dut.connect, 1)
         ctx.set(self.bus.line_state, 1)
@@ -622,6 +651,31 @@ def check_C57(rep):
               "gap": 0.0, "stall": 0.0, "rx_p": 0.0, "tx_p": 1.0, "avoid_overrun": False}
         tr = bench.run(sc)
         items[maxpkt].append((tr, {"maxpkt": maxpkt, "buf": 2 * maxpkt - 1, "origin": "overrun-family", "n": 0}))
+
+    # 3e. control transfers with the traffic a real CDC-ACM host interleaves between their transactions: IN polls of the
+    #     interrupt endpoint (EP3) and of the bulk IN endpoint (EP4, with and without data queued), tokens for other
+    #     devices -- after the SETUP transaction, between data-stage packets and before the status stage.
+    for maxpkt in ((8,) if quick else (2, 8, 64)):
+        bench = benches[maxpkt]
+        for mode in ("ep3", "ep4", "foreign", "mix"):
+            for i in range(1 if quick else 4):
+                rng = random.Random("%s-polls-%d-%s-%d" % (rep.seed, maxpkt, mode, i))
+                ops = []
+                for op in enumeration_ops(rng, maxpkt) + class_vendor_ops(rng):
+                    if rng.random() < 0.4:
+                        n = rng.randint(1, maxpkt)
+                        ops.append(("tx", [[rng.randrange(256), j == n - 1] for j in range(n)], True))
+                    ops.append(op)
+                sc = {"rng": rng, "ops": ops, "gap": rng.choice([0, 0.2]), "stall": rng.choice([0, 0.2]),
+                      "rx_p": 1.0, "tx_p": 1.0, "ctl_polls": mode}
+                tr = bench.run(sc)
+                bad = [x for x in bench.ep3_resp if x != "NAK"]
+                if bad:
+                    rep.violation({"clause": "interleaved_poll_answered_wrongly", "pattern": str(bad[0])},
+                                  "USBSerialDevice: interleaved interrupt-IN poll / foreign token during a control "
+                                  "transfer answered %r (expected NAK / silence)" % bad[:3], None)
+                items[maxpkt].append((tr, {"maxpkt": maxpkt, "buf": 2 * maxpkt - 1,
+                                           "origin": "ctl-with-interleaved-polls/" + mode, "n": i}))
 
     # 4. TLC decides
     for maxpkt, its in items.items():
